@@ -164,6 +164,7 @@ func C01Configs(thorough bool) []*world.Config {
 	add(world.StructCfg(2, []uint8{0, 1, 0, 2, 0}, M, "none"))
 	add(ChainSeeded(M, 3))
 	add(Seeded16(B, 2))
+	add(LateInsertSeeded(B, 6))
 	im := world.IntCfg(16, []int{1, 2, 3, 16, 32}, []interface{}{"a", "b"}, "", B, "none")
 	im.InMemory = true
 	im.Name = "inmemory/" + im.Name
@@ -210,6 +211,11 @@ func C01(run *report.Run) {
 			e.MaxStates = 60000
 		}
 		runExplorer(run, "C01", e)
+	}
+	if os.Getenv("VERIF_ONLY") == "" {
+		acc := &pairAcc{}
+		bigC01(run, acc)
+		acc.flush(run)
 	}
 	run.Rule = "explicit-state BFS to closure over {insert,delete} x keys x values, MakeRoot, MakeRoot+LoadMast (and Get/Iter when a cache is attached); every transition executes the real implementation; states merged on the exact heap dump"
 	run.Assumptions = append(run.Assumptions, "finite key/value universes per configuration", "state merging is sound because equal dumps are isomorphic heaps and mast is deterministic (DESIGN 3.3)")
